@@ -217,7 +217,7 @@ def new_window(h, parent=None, rect=None, flags=None):
 def history(h_index, big):
     h = Hist()
     tl = rng.choice([4, 6, 8, 8, 10, 12]); tc = rng.choice([8, 10, 16, 16, 24, 30])
-    mode = rng.choice(["a", "a", "a", "p", "r"])
+    mode = rng.choice(["a", "a", "a", "p", "r", "m"])     # m: the library's own mock terminal
     stats["scroll_modes"][mode] = stats["scroll_modes"].get(mode, 0) + 1
     emit("new %s %d %d %s %s" % (a.prop, tl, tc, mode, pen_tok(0, null_ok=False)))
     h.parent[0] = None; h.rect[0] = [0, 0, tl, tc]; h.n = 1
@@ -309,14 +309,14 @@ def history(h_index, big):
             sub = h.descendants(w)
             emit("close %d" % w)
             h.dead.update(sub)
-        elif x < 0.96:
+        elif x < 0.96 and mode != "m":
             nl = max(1, tl + rng.choice([-3, -2, -1, 0, 1, 2, 3])); nc = max(1, tc + rng.choice([-7, -3, -1, 0, 1, 2, 5]))
             if C02 and "root_shrink" in UNFIXED and (nl < tl or nc < tc):
                 emit("flush"); stats["flushes"] += 1; h.pending.clear()    # no damage pending across a shrink (known finding)
             emit("resize %d %d" % (nl, nc))
             tl, tc = nl, nc
             h.rect[0] = [0, 0, tl, tc]
-        elif x < 0.98:
+        elif x < 0.98 and mode != "m":
             emit("scrollmode %s" % rng.choice(["a", "p", "r"]))
         elif C02 and w is not None:
             emit("beh %d %s" % (w, adversarial_prog(h, w)))
